@@ -12,6 +12,8 @@ A case is a plain dict (JSON-able, floats only) so that it can be written into a
 Every field of the plasma depends on the position, the attenuator density depends on the position in
 beam space: an implementation that samples the wrong point returns different numbers.
 """
+import copy
+import hashlib
 import math
 
 from raysect.core import Point3D, Vector3D
@@ -234,37 +236,284 @@ def run_case(case):
     return out
 
 
+CAUGHT = (RuntimeError, ValueError, AttributeError, TypeError)
+
+
+def _eval_cx(model, bp, pp, direction, obs, log):
+    spectrum = Spectrum(600.0, 700.0, 4)
+    try:
+        res = model.emission(bp, pp, direction, obs, spectrum)
+    except CAUGHT as e:
+        return {"code": error_code(e), "radiance": 0.0, "log": log, "error": repr(e)}
+    lines = [l for l in log if l[0] == "line"]
+    untouched = res is spectrum and not any(res.samples)
+    if not lines:
+        return {"code": 0 if untouched else 8, "radiance": 0.0, "log": log, "error": ""}
+    return {"code": 1 if len(lines) == 1 else 8, "radiance": lines[0][1], "log": log, "error": "",
+            "line_point": lines[0][2]}
+
+
+def _eval_bes(model, bp, pp, direction, obs, log):
+    # one bin that contains every Stark component many widths away from its edges: each Gaussian
+    # integrates to exactly 1.0 in double, so sample * delta is the wavelength integral
+    spectrum = Spectrum(556.0, 756.0, 1)
+    try:
+        res = model.emission(bp, pp, direction, obs, spectrum)
+    except CAUGHT as e:
+        return {"code": error_code(e), "radiance": 0.0, "log": log, "error": repr(e)}
+    total = float(res.samples[0]) * res.delta_wavelength
+    called = any(l[0] == "pec" for l in log) or total != 0.0
+    return {"code": 1 if called else 0, "radiance": total, "log": log, "error": ""}
+
+
 def _run_emission(case, beam, bp, pp, direction, obs, log):
     b = case["beam"]
     if case["kind"] == "cx":
         ln = case["line"]
         model = BeamCXLine(Line(ELEMENTS[ln["el"]], ln["charge"], tuple(ln["transition"])), lineshape=Recorder)
         beam.models = [model]
-        spectrum = Spectrum(600.0, 700.0, 4)
-        try:
-            res = model.emission(bp, pp, direction, obs, spectrum)
-        except (RuntimeError, ValueError, AttributeError) as e:
-            return {"code": error_code(e), "radiance": 0.0, "log": log, "error": repr(e)}
-        lines = [l for l in log if l[0] == "line"]
-        untouched = res is spectrum and not any(res.samples)
-        if not lines:
-            return {"code": 0 if untouched else 8, "radiance": 0.0, "log": log, "error": ""}
-        return {"code": 1 if len(lines) == 1 else 8, "radiance": lines[0][1], "log": log, "error": "",
-                "line_point": lines[0][2]}
+        return _eval_cx(model, bp, pp, direction, obs, log)
     if case["kind"] == "bes":
         model = BeamEmissionLine(Line(ELEMENTS[b["element"]], 0, (3, 2)))
         beam.models = [model]
-        # one bin that contains every Stark component many widths away from its edges: each Gaussian
-        # integrates to exactly 1.0 in double, so sample * delta is the wavelength integral
-        spectrum = Spectrum(556.0, 756.0, 1)
-        try:
-            res = model.emission(bp, pp, direction, obs, spectrum)
-        except (RuntimeError, ValueError, AttributeError) as e:
-            return {"code": error_code(e), "radiance": 0.0, "log": log, "error": repr(e)}
-        total = float(res.samples[0]) * res.delta_wavelength
-        called = any(l[0] == "pec" for l in log) or total != 0.0
-        return {"code": 1 if called else 0, "radiance": total, "log": log, "error": ""}
+        return _eval_bes(model, bp, pp, direction, obs, log)
     raise ValueError(case["kind"])
+
+
+# ---- histories: one scene with live BeamCXLine / BeamEmissionLine, mutated through the public API ----
+SCALE_CX = 2.0 ** -112      # ~ 1.9e-34 W m^3
+SCALE_PEC = 2.0 ** -110
+UNIT5 = [1.0, 2.0 ** -16, 2.0 ** -10, 2.0 ** -64, 1.0, 1.0]     # E ~ 2^16, T ~ 2^10, n ~ 2^64
+UNIT3 = [1.0, 2.0 ** -16, 2.0 ** -64, 2.0 ** -10]               # E, n, T
+
+
+def _coef_int(*key):
+    h = hashlib.sha256(repr(key).encode()).digest()[0]
+    return [0, 1, 1, 2, 3, 5, 7][h % 7]
+
+
+def pop_coeffs(seed, m, el, ch):
+    """population coefficients of the provider `seed` for metastable m and species (el, ch)"""
+    if ch == 0:
+        return [0.0] * 4
+    return [_coef_int(seed, "pop", m, el, ch, k) * u * 2.0 ** -3 for k, u in enumerate(UNIT3)]
+
+
+def pec_coeffs(seed, el, ch):
+    if ch == 0:
+        return [0.0] * 4
+    return [_coef_int(seed, "pec", el, ch, k) * u * SCALE_PEC for k, u in enumerate(UNIT3)]
+
+
+class HistData(AtomicData):
+    """provider = {"seed": int, "rates": [{"m": int, "c": [6 floats]}]}: coefficients exist for every
+    (element, charge), so species may come and go; rate objects are tagged by (element index, charge)"""
+
+    def __init__(self, prov, log):
+        self.prov, self.log = prov, log
+
+    def wavelength(self, ion, charge, transition):
+        return 656.1
+
+    def beam_cx_pec(self, donor_ion, receiver_ion, receiver_charge, transition):
+        self.log.append(("request_cx", donor_ion.name, receiver_ion.name, receiver_charge, tuple(transition)))
+        return [StubCX(r["m"], r["c"], self.log) for r in self.prov["rates"]]
+
+    def beam_population_rate(self, beam_ion, metastable, plasma_ion, charge):
+        if charge == 0:
+            return NullBeamPopulationRate()
+        el = ELEMENTS.index(plasma_ion)
+        return StubPop((metastable, (el, charge)), pop_coeffs(self.prov["seed"], metastable, el, charge), self.log)
+
+    def beam_emission_pec(self, beam_ion, plasma_ion, charge, transition):
+        if charge == 0:
+            return NullBeamEmissionPEC()
+        el = ELEMENTS.index(plasma_ion)
+        return StubPEC((el, charge), pec_coeffs(self.prov["seed"], el, charge), self.log)
+
+
+def make_species(s):
+    el = ELEMENTS[s["el"]]
+
+    def dens(x, y, z, n0=s["n0"]):
+        return n0 * g_dens(x, y, z)
+
+    def temp(x, y, z, t0=s["t0"]):
+        return t0 * g_temp(x, y, z)
+
+    def vel(x, y, z, v0=s["v0"]):
+        gv = g_vel(x, y, z)
+        return Vector3D(v0[0] * gv, v0[1] * gv, v0[2] * gv)
+
+    return Species(el, s["charge"], Maxwellian(dens, temp, vel, el.atomic_weight * AMU))
+
+
+def make_bfield(b0):
+    return lambda x, y, z: Vector3D(b0[0] * g_b(x, y, z), b0[1] * g_b(x, y, z), b0[2] * g_b(x, y, z))
+
+
+def expand(cfg, ev):
+    """the single-evaluation case that describes the CURRENT configuration `cfg` for the evaluation `ev`"""
+    sps = copy.deepcopy(cfg["species"])
+    case = {"kind": ev["kind"], "exact": cfg.get("exact", False), "species": sps, "b0": list(cfg["b0"]),
+            "plasma_point": list(ev["plasma_point"])}
+    if ev["kind"] == "plasma":
+        return case
+    case["beam"] = dict(cfg["beam"], dir=list(ev["dir"]))
+    case["beam_point"] = list(ev["beam_point"])
+    z = ev["beam_point"][2]
+    case["beam_class"] = ("att=0" if cfg["beam"]["att0"] == 0 else "z<0" if z < 0 else "z>length" if z > cfg["beam"]["length"]
+                          else "z=0" if z == 0 else "z=length" if z == cfg["beam"]["length"] else "inside")
+    seed = cfg["prov"]["seed"]
+    if ev["kind"] == "bes":
+        case["pecs"] = [pec_coeffs(seed, s["el"], s["charge"]) for s in sps]
+        return case
+    case["line"] = copy.deepcopy(cfg["line"])
+    rs = [s for s in sps if s["el"] == cfg["line"]["el"] and s["charge"] == cfg["line"]["charge"] + 1]
+    case["receiver_class"] = ("absent" if not rs else "zero density" if rs[0]["n0"] == 0 else
+                              "zero temperature" if rs[0]["t0"] == 0 else "present")
+    case["rates"] = [{"m": r["m"], "c": list(r["c"]), "pop": [pop_coeffs(seed, r["m"], s["el"], s["charge"]) for s in sps]}
+                     for r in cfg["prov"]["rates"]]
+    return case
+
+
+class Scene:
+    """One Plasma + Beam with a live BeamCXLine and a live BeamEmissionLine attached.  `cfg` is the harness's own
+    record of the configuration (updated from the mutation, never read back from the implementation)."""
+
+    def __init__(self, cfg):
+        self.cfg = copy.deepcopy(cfg)
+        c = self.cfg
+        self.log = []
+        self.plasma = Plasma()
+        self.plasma.b_field = make_bfield(c["b0"])
+        self.plasma.composition = [make_species(s) for s in c["species"]]
+        self.plasma.electron_distribution = Maxwellian(1.0e19, 100.0, Vector3D(0, 0, 0), 9.1093837015e-31)
+        b = c["beam"]
+        self.beam = Beam()
+        self.beam.plasma = self.plasma
+        self.beam.atomic_data = HistData(c["prov"], self.log)
+        self.beam.energy = b["energy"]
+        self.beam.element = ELEMENTS[b["element"]]
+        self.beam.length = b["length"]
+        self.beam.temperature = 10.0
+        self.beam.attenuator = StubAttenuator(b["att0"], self.log)
+        ln = c["line"]
+        self.cx = BeamCXLine(Line(ELEMENTS[ln["el"]], ln["charge"], tuple(ln["transition"])), lineshape=Recorder)
+        self.bes = BeamEmissionLine(Line(ELEMENTS[b["element"]], 0, (3, 2)))
+        self.beam.models = [self.cx, self.bes]
+
+    def _set_species(self, new):
+        self.cfg["species"] = copy.deepcopy(new)
+
+    def apply(self, step):
+        """perform one mutation through the public API and record it in cfg"""
+        op, c = step["op"], self.cfg
+        comp = self.plasma.composition
+        if op == "none":
+            return
+        if op in ("add_new", "add_existing"):
+            s = step["species"]
+            keys = [(t["el"], t["charge"]) for t in c["species"]]
+            comp.add(make_species(s))
+            if (s["el"], s["charge"]) in keys:          # dict semantics: the entry keeps its position
+                c["species"][keys.index((s["el"], s["charge"]))] = copy.deepcopy(s)
+            else:
+                c["species"].append(copy.deepcopy(s))
+        elif op == "assign":
+            self.plasma.composition = [make_species(s) for s in step["species"]]
+            self._set_species(step["species"])
+        elif op == "set":
+            comp.set([make_species(s) for s in step["species"]])
+            self._set_species(step["species"])
+        elif op == "clear_readd":
+            comp.clear()
+            for s in step["species"]:
+                comp.add(make_species(s))
+            self._set_species(step["species"])
+        elif op == "b_field":
+            self.plasma.b_field = make_bfield(step["b0"])
+            c["b0"] = list(step["b0"])
+        elif op == "electron":
+            self.plasma.electron_distribution = Maxwellian(step["ne"], step["te"], Vector3D(0, 0, 0), 9.1093837015e-31)
+        elif op == "beam_energy":
+            self.beam.energy = step["energy"]
+            c["beam"]["energy"] = step["energy"]
+        elif op == "beam_element":
+            self.beam.element = ELEMENTS[step["element"]]
+            self.bes.line = Line(ELEMENTS[step["element"]], 0, (3, 2))
+            c["beam"]["element"] = step["element"]
+        elif op == "beam_temperature":
+            self.beam.temperature = step["temperature"]
+        elif op == "beam_length":
+            self.beam.length = step["length"]
+            c["beam"]["length"] = step["length"]
+        elif op == "attenuator":
+            self.beam.attenuator = StubAttenuator(step["att0"], self.log)
+            c["beam"]["att0"] = step["att0"]
+        elif op == "atomic_data":
+            self.beam.atomic_data = HistData(step["prov"], self.log)
+            c["prov"] = copy.deepcopy(step["prov"])
+        elif op == "cx_line":
+            ln = step["line"]
+            self.cx.line = Line(ELEMENTS[ln["el"]], ln["charge"], tuple(ln["transition"]))
+            c["line"] = copy.deepcopy(ln)
+        else:
+            raise ValueError(op)
+
+    def evaluate(self, ev):
+        """one evaluation on the live objects; returns (case describing the current configuration, out)"""
+        case = expand(self.cfg, ev)
+        log = self.log
+        del log[:]
+        Recorder.LOG = log
+        px, py, pz = ev["plasma_point"]
+        if ev["kind"] == "plasma":
+            out = {"error": "", "radiance": 0.0}
+            out["nion"] = self.plasma.ion_density(px, py, pz)
+            try:
+                out["zeff"] = self.plasma.z_effective(px, py, pz)
+                out["code"] = 1
+            except ValueError as e:
+                out["zeff"], out["code"], out["error"] = 0.0, 3, repr(e)
+            out["log"] = []
+            return case, out
+        bp, pp = Point3D(*ev["beam_point"]), Point3D(px, py, pz)
+        direction, obs = Vector3D(*ev["dir"]), Vector3D(1.0, 0.0, 0.0)
+        out = (_eval_cx if ev["kind"] == "cx" else _eval_bes)(self.cx if ev["kind"] == "cx" else self.bes,
+                                                              bp, pp, direction, obs, log)
+        # rate objects are tagged by (element, charge): translate to the position in the current composition
+        keys = [(s["el"], s["charge"]) for s in self.cfg["species"]]
+        conv, stale = [], []
+        for l in log:
+            if l[0] == "pop":
+                i = keys.index(l[1][1]) if l[1][1] in keys else -1
+                conv.append(("pop", (l[1][0], i), l[2], l[3]))
+            elif l[0] == "pec":
+                i = keys.index(l[1]) if l[1] in keys else -1
+                conv.append(("pec", i, l[2], l[3]))
+            else:
+                conv.append(l)
+                continue
+            if i < 0:
+                stale.append(l[1])
+        out["log"] = conv
+        out["stale_species"] = stale
+        out["n_beam"] = self.beam.density(bp.x, bp.y, bp.z)
+        return case, out
+
+
+def run_history(hist):
+    """hist = {"cfg": initial configuration, "steps": [{"op": ..., ..., "evals": [ev, ...]}]};
+    returns [(case, out, step index)] for every evaluation"""
+    scene = Scene(hist["cfg"])
+    res = []
+    for k, step in enumerate(hist["steps"]):
+        scene.apply(step)
+        for ev in step["evals"]:
+            case, out = scene.evaluate(ev)
+            res.append((case, out, k))
+    return res
 
 
 # ---- the property itself, evaluated on what the implementation did (failing-input search) -----------
